@@ -159,8 +159,8 @@ if (!goog.format) {
 
         // If hit maxCharsBetweenWordBreaks, and not space next, then add <wbr>.
         if (numCharsWithoutBreak >= maxCharsBetweenWordBreaks &&
-            // space
-            charCode != 32) {
+            // space, or the second half of a surrogate pair
+            charCode != 32 && (charCode & 0xFC00) != 0xDC00) {
           resultArr[resultArrLen++] = str.substring(flushIndex, i);
           flushIndex = i;
           resultArr[resultArrLen++] = goog.format.WORD_BREAK;
